@@ -50,3 +50,11 @@ Print Assumptions C08_involute.
 Print Assumptions C08_conjugate.
 Print Assumptions C08_hodge.
 Print Assumptions C08_unhodge.
+
+(* ---- the tie to today's source: codegen_product as regenerated from /repo/kingdon/codegen.py
+   (Gen/Kernels.v) IS the model function the theorems above speak about, for every coefficient type ---- *)
+From KV Require Import Gen.Kernels Bridge.Kernels.
+Theorem C08_product_kernel_is_todays_source : forall (R : Type) (O : ops R) sfun filt kout (x y : mv R),
+  gen_codegen_product O sfun filt kout x y = codegen_product O sfun filt kout x y.
+Proof. exact @br_codegen_product. Qed.
+Print Assumptions C08_product_kernel_is_todays_source.
